@@ -61,6 +61,9 @@ class C02Monitor(Monitor):
 class C03Monitor(Monitor):
     prop = "C03"
 
+    def __init__(self):
+        self.probe = {"solve_after_or_around_fault": 0}
+
     def on_op_end(self, w, a, op, outcome):
         kind = op["op"]
         if kind == "create":
@@ -78,12 +81,23 @@ class C03Monitor(Monitor):
         except BaseException as e:
             _reraise_if_harness(e)
         rs = read_solution(sol) if sol is not None else None
-        failed = [c for c in a.calls if c.phase == "global_failed"]
-        if rs is not None and not failed and kind in ("iterate", "solve", "results"):
+        failed = [c for c in a.calls if c.fault is not None and c.phase != "probe"]
+        if rs is not None and kind in ("iterate", "solve", "results"):
+            # (an evaluation that raised made no trial: the count is that of the completed evaluations)
             if rs[2] != n:
-                w.flag(self.prop, "count", "%s: after %s reported numberOfGlobalTrials=%d, objective was evaluated %d times by the global search"
-                       % (a.aid, kind, rs[2], n), kind)
+                w.flag(self.prop, "count", "%s: after %s reported numberOfGlobalTrials=%d, objective was evaluated %d times by the global search%s"
+                       % (a.aid, kind, rs[2], n, " (+%d failed evaluation(s))" % len(failed) if failed else ""), kind)
         if kind != "solve":
+            return
+        if failed and not outcome.get("raised") and not a.solve_info[-1]["over_budget"]:
+            # fault configuration: the stop index is not predicted (the failed iteration lost its interval), but the
+            # budget still binds - a Solve never takes the number of trials beyond max(itersLimit, trials before it)
+            self.probe["solve_after_or_around_fault"] += 1
+            lim = int(a.params["itersLimit"])
+            pre = a.solve_info[-1]["pre"]
+            if n > max(lim, pre):
+                w.flag(self.prop, "budget", "%s: Solve after an objective failure ended with %d global trials (%d before it), itersLimit=%d"
+                       % (a.aid, n, pre, lim), "Solve/after_fault")
             return
         info = a.solve_info[-1]
         eps = a.params["eps"]
